@@ -15,6 +15,7 @@ import (
 	"os"
 	"os/exec"
 	"path/filepath"
+	"reflect"
 	"strconv"
 	"strings"
 
@@ -233,9 +234,12 @@ type shared struct {
 	foldTypes []*model.TypeEntry
 	vals      []interface{}
 	types     []*model.TypeEntry
-	docs      [][]byte
-	fmts      []model.Format
-	dtype     []*model.TypeEntry
+	// large typed slices that several tasks fold at the same time: shared
+	// INPUT is read-only for everybody (bulk paths start at some length)
+	big   []interface{}
+	docs  [][]byte
+	fmts  []model.Format
+	dtype []*model.TypeEntry
 }
 
 func genShared(c *simkit.Choices) *shared {
@@ -260,6 +264,59 @@ func genShared(c *simkit.Choices) *shared {
 		te := pickType(c)
 		s.types = append(s.types, te)
 		s.vals = append(s.vals, te.Gen(c))
+	}
+	for i, n := 0, 1+c.N(2); i < n; i++ {
+		ln := []int{255, 256, 257, 300, 1024, 1025}[c.N(6)]
+		switch c.N(8) {
+		case 0:
+			a := make([]float64, ln)
+			for j := range a {
+				a[j] = float64(j) + 0.5
+			}
+			s.big = append(s.big, a)
+		case 1:
+			a := make([]float32, ln)
+			for j := range a {
+				a[j] = float32(j) + 0.25
+			}
+			s.big = append(s.big, a)
+		case 2:
+			a := make([]int64, ln)
+			for j := range a {
+				a[j] = int64(j)<<33 + 1
+			}
+			s.big = append(s.big, a)
+		case 3:
+			a := make([]int32, ln)
+			for j := range a {
+				a[j] = int32(j)<<17 + 1
+			}
+			s.big = append(s.big, a)
+		case 4:
+			a := make([]uint16, ln)
+			for j := range a {
+				a[j] = uint16(j)<<8 + 1
+			}
+			s.big = append(s.big, a)
+		case 5:
+			a := make([]string, ln)
+			for j := range a {
+				a[j] = "s" + string(rune('a'+j%26))
+			}
+			s.big = append(s.big, a)
+		case 6:
+			a := make([]interface{}, ln)
+			for j := range a {
+				a[j] = j
+			}
+			s.big = append(s.big, a)
+		default:
+			a := make([]uint8, ln)
+			for j := range a {
+				a[j] = uint8(j)
+			}
+			s.big = append(s.big, a)
+		}
 	}
 	for i, n := 0, 2+c.N(3); i < n; i++ {
 		te := pickType(c)
@@ -321,6 +378,10 @@ func genOp(c *simkit.Choices, sh *shared, taskIdx int) *op {
 		case 1, 2: // a shared value with inline interface / Folder / map fields
 			j := c.N(len(sh.foldVals))
 			val, tname = sh.foldVals[j], sh.foldTypes[j].Name
+		}
+		if c.N(8) == 0 {
+			j := c.N(len(sh.big))
+			val, tname = sh.big[j], fmt.Sprintf("shared %T of %d", sh.big[j], reflect.ValueOf(sh.big[j]).Len())
 		}
 		if c.N(6) == 0 {
 			// every task its OWN value of one of a few types whose folding goes
